@@ -16,7 +16,7 @@ import os
 
 import numpy as np
 
-from .. import core
+from .. import argguard, core
 
 CLAUSES = ["TypeOK", "C13_WellFormed", "C13_InsideBox", "C13_MembershipPredicates", "C13_SphereIsDistanceLeqR",
            "C13_CylinderIsDiscTimesSlab", "C13_EllipsoidIsNormalisedSumLeq1", "C13_SphereShellIsOuterMinusInner",
@@ -39,7 +39,7 @@ def setlit(xs):
 
 def cfg_small(consts, cases, emit, invs, props=()):
     lines = ["SPECIFICATION Spec", "CONSTANTS", " Cases <- %s" % cases, ' EmitMode = "%s"' % ("tr" if emit else "none")]
-    for k in ("N1", "N2", "N3", "E1", "E2", "E3", "CM", "CR"):
+    for k in ("N1", "N2", "N3", "E1", "E2", "E3", "CM", "CR", "SweepMax"):
         lines.append(" %s = %d" % (k, consts[k]))
     for k in ("Radii", "Heights", "Thick", "EllRadii", "NameNums"):
         lines.append(" %s = %s" % (k, setlit(consts[k])))
@@ -64,34 +64,61 @@ def _form(seq, variant, allow_scalar=True):
     return tuple(seq)
 
 
-def build_request(q, variant, gaussian=0.0, outwards=None):
-    """Calls the cryomask constructor the request names.  variant selects argument forms only."""
+def prepare_request(q, variant, gaussian=0.0, outwards=None, output_name=None):
+    """The cryomask constructor the request names and its argument objects (built once, so that the SAME objects can be
+    handed to several calls).  variant selects argument forms only.  Returns (function, args, kwargs)."""
     from cryocat import cryomask
     sh = q["shape"]
     if sh == "name":
-        name = q["_name"]
+        kw = {}
         if q["size"] > 0:
-            return cryomask.generate_mask(name, mask_size=int(q["size"]))
-        return cryomask.generate_mask(name)
+            kw["mask_size"] = int(q["size"])
+        if q.get("exp", 4) != 4 or variant % 3 == 0:
+            kw["mask_expansion"] = int(q.get("exp", 4))
+        return cryomask.generate_mask, (q["_name"],), kw
     size = _form(q["n"], variant)
     centre = None if q["dc"] else _form(q["c"], variant // 4, allow_scalar=False)
-    kw = {}
+    kw = {"center": centre}
     if gaussian:
         kw["gaussian"] = gaussian
     if outwards is not None:
         kw["gaussian_outwards"] = outwards
+    if output_name is not None:
+        kw["output_name"] = output_name
     if sh == "sphere":
-        return cryomask.spherical_mask(size, radius=int(q["r"]), center=centre, **kw)
+        kw["radius"] = int(q["r"])
+        return cryomask.spherical_mask, (size,), kw
     if sh == "cyl":
-        return cryomask.cylindrical_mask(size, radius=int(q["r"]), height=int(q["h"]), center=centre, **kw)
+        kw.update({"radius": int(q["r"]), "height": int(q["h"])})
+        return cryomask.cylindrical_mask, (size,), kw
     if sh == "ell":
-        return cryomask.ellipsoid_mask(size, radii=_form(q["rr"], variant // 16), center=centre, **kw)
+        kw["radii"] = _form(q["rr"], variant // 16)
+        return cryomask.ellipsoid_mask, (size,), kw
     if sh == "sshell":
-        return cryomask.spherical_shell_mask(size, int(q["t"]), radius=int(q["r"]), center=centre, **kw)
+        kw["radius"] = int(q["r"])
+        return cryomask.spherical_shell_mask, (size, int(q["t"])), kw
     if sh == "eshell":
-        return cryomask.ellipsoid_shell_mask(size, int(q["t"]), _form(q["rr"], variant // 16, allow_scalar=False),
-                                             center=centre, **kw)
+        return cryomask.ellipsoid_shell_mask, (size, int(q["t"]), _form(q["rr"], variant // 16, allow_scalar=False)), kw
     raise core.MachineryError("unknown shape %r" % (sh,))
+
+
+def build_request(q, variant, gaussian=0.0, outwards=None):
+    fn, args, kw = prepare_request(q, variant, gaussian, outwards)
+    return fn(*args, **kw)
+
+
+def call_history(n, variant, workdir):
+    """Other public functions of cryomask with non-default options: nothing of them may leak into later calls."""
+    from cryocat import cryomask
+    m = [max(6, int(x)) for x in n]
+    cryomask.spherical_mask(m, radius=2, center=[1, 2, 3], gaussian=1.0, gaussian_outwards=False)
+    cryomask.cylindrical_mask(m, radius=1, height=3, gaussian=0.5)
+    cryomask.generate_mask("sphere_r2", mask_size=8, mask_expansion=2)
+    cryomask.generate_mask("ellipsoid_rx1_ry2_rz3")
+    a = np.zeros(m)
+    a[1:3, 1:3, 1:3] = 1
+    cryomask.difference([a, 1 - a, a], output_name=os.path.join(workdir, "hist_%d.em" % os.getpid()))
+    cryomask.subtraction((a.astype(bool), a))
 
 
 def shape_sig(q):
@@ -166,47 +193,102 @@ def alias_check(ctx, call, first, case, sig, what):
 
 
 def replay_shape(ctx, rec, variant):
+    from cryocat import cryomask, cryomap
     q = dict(rec["case"])
     if q["shape"] == "name":
         q["_name"] = rec["name"]
     case = {"kind": "l2", "req": rec["case"], "variant": variant}
     sig = shape_sig(rec["case"])
-    arr, err = core.call_guarded(build_request, q, variant)
+    if variant % 11 == 0:
+        _, herr = core.call_guarded(call_history, rec["n"], variant, ctx.workdir)
+        if herr is not None:
+            ctx.fail("call_raises", "call history (other cryomask functions, non-default options): %s" % herr, case,
+                     {"op": "call_history"})
+    outp = None
+    if variant % 13 == 0 and q["shape"] != "name":           # written to a file as well (every accepted extension)
+        outp = os.path.join(ctx.workdir, "mask_%d.%s" % (os.getpid(), ["mrc", "em", "rec"][variant % 3]))
+    fn, args, kw = prepare_request(q, variant, output_name=outp)
+    guard = argguard.Guard(args=list(args), kwargs=kw)
+
+    def call():
+        return fn(*args, **kw)                                   # the SAME argument objects on every call
+    arr, err = core.call_guarded(call)
     ctx.ran(case)
     if err is not None:
         ctx.fail("call_raises", err, case, sig)
         return
-    if compare_mask(ctx, arr, rec, case, sig):
-        alias_check(ctx, lambda: build_request(q, variant), arr, case, sig, SHAPE_OP[rec["case"]["shape"]])
+    why = guard.changed()
+    if why:
+        ctx.fail("C13_InputsUntouched", "%s changed an argument: %s" % (SHAPE_OP[q["shape"]], why), case, sig)
+        return
+    if not compare_mask(ctx, arr, rec, case, sig):
+        return
+    if outp is not None:
+        back = cryomap.read(outp) if os.path.exists(outp) else None
+        if back is None or back.shape != arr.shape or not bool(np.array_equal(np.asarray(back, dtype=float), np.asarray(arr, dtype=float))):
+            ctx.fail(SHAPE_CLAUSE[q["shape"]], "the mask written to output_name differs from the returned mask", case, sig)
+        if os.path.exists(outp):
+            os.remove(outp)
+    alias_check(ctx, call, arr, case, sig, SHAPE_OP[rec["case"]["shape"]])
+    if q["shape"] != "name" and variant % 5 == 0:
+        # the same size / centre objects handed to another constructor with other options, then once more to this one
+        core.call_guarded(cryomask.cylindrical_mask, args[0], radius=1, height=2, center=kw.get("center"), gaussian=0.5,
+                          gaussian_outwards=False)
+        again, err = core.call_guarded(call)
+        if err is not None:
+            ctx.fail("call_raises", "after the arguments were reused for another constructor: %s" % err, case, sig)
+        else:
+            compare_mask(ctx, again, rec, case, sig)
+    why = guard.changed()
+    if why:
+        ctx.fail("C13_InputsUntouched", "an argument of %s changed during repeated / interleaved calls: %s" % (
+            SHAPE_OP[q["shape"]], why), case, sig)
+    if outp is not None and os.path.exists(outp):
+        os.remove(outp)
 
 
 # ---- algebra ------------------------------------------------------------------------------------------------
-DTYPES = ["float64", "float32", "int64", "int32", "uint8", "bool", "em", "mrc"]
+DTYPES = ["float64", "float32", "int64", "int32", "uint8", "bool", "em", "mrc", "rec"]
+LAYOUTS = ["c", "c", "f", "strided", "ro"]
 OPS = [("union", "union"), ("intersection", "inter"), ("subtraction", "sub"), ("difference", "diff")]
 
 
 def dtype_class(d):
-    if d in ("em", "mrc"):
+    if d in ("em", "mrc", "rec"):
         return "file"
     if d == "bool":
         return "bool"
     return "float" if d.startswith("float") else "int"
 
 
-def materialise(ctx, sets, n, dts, tag):
-    """gamma for a list of voxel sets: arrays of the chosen dtypes or map files."""
+def layout_of(a, layout):
+    if layout == "f":
+        return np.asfortranarray(a)
+    if layout == "strided" and a.ndim == 3:
+        big = np.zeros(a.shape[:2] + (2 * a.shape[2],), dtype=a.dtype)
+        big[:, :, ::2] = a
+        return big[:, :, ::2]
+    if layout == "ro":
+        r = np.array(a, copy=True)
+        r.setflags(write=False)
+        return r
+    return a
+
+
+def materialise(ctx, sets, n, dts, tag, layouts=None):
+    """gamma for a list of voxel sets: arrays of the chosen dtypes and memory layouts, or map files."""
     from cryocat import cryomap
     items = []
     for i, (s, d) in enumerate(zip(sets, dts)):
         a = np.zeros(int(n[0] * n[1] * n[2]), dtype=np.float64)
         a[np.asarray(s, dtype=int)] = 1.0
         a = a.reshape(n)
-        if d in ("em", "mrc"):
+        if d in ("em", "mrc", "rec"):
             path = os.path.join(ctx.workdir, "alg_%s_%d.%s" % (tag, i, d))
             cryomap.write(a, path, data_type=np.single)
             items.append(path)
         else:
-            items.append(a.astype(d))
+            items.append(layout_of(a.astype(d), layouts[i] if layouts else "c"))
     return items
 
 
@@ -233,27 +315,37 @@ def replay_algebra(ctx, rec, variant):
     n = rec["n"]
     k = len(rec["masks"])
     dts = [rng.choice(DTYPES[:6]) if rng.random() < 0.85 else rng.choice(DTYPES[6:]) for _ in range(k)]
+    lays = [rng.choice(LAYOUTS) for _ in range(k)]
     if min(n) < 2:
-        dts = [d if d not in ("em", "mrc") else "float32" for d in dts]
+        dts = [d if d not in ("em", "mrc", "rec") else "float32" for d in dts]
     case = {"kind": "l2", "req": rec["case"], "variant": variant}
-    items = materialise(ctx, rec["masks"], n, dts, "%d_%d" % (os.getpid(), variant % 7))
+    items = materialise(ctx, rec["masks"], n, dts, "%d_%d" % (os.getpid(), variant % 7), lays)
     before = snapshot(items)
     ctx.ran(case)
-    lst = list(items)
+    as_tuple = rec["case"].get("cont", "list") == "tuple"
+    lst = tuple(items) if as_tuple else list(items)
+    flags = argguard.Guard(masks=list(items))          # dtype, layout and writeable flag of every array as well
+    if variant % 11 == 0:
+        _, herr = core.call_guarded(call_history, n, variant, ctx.workdir)
+        if herr is not None:
+            ctx.fail("call_raises", "call history (other cryomask functions, non-default options): %s" % herr, case,
+                     {"op": "call_history"})
     for fname, key in OPS:
         sig = {"op": fname, "first_dtype": dtype_class(dts[0]), "nmasks": k if k < 3 else "3+"}
         res, err = core.call_guarded(getattr(cryomask, fname), lst)       # ONE list object, reused for every operation
         if container_changed(lst, items):
             ctx.fail("C13_InputsUntouched", "%s(%s) changed the caller's list (%d entries before, %d after)" % (
                 fname, dts, len(items), len(lst)), case, sig)
-            lst[:] = items
+            lst = tuple(items) if as_tuple else list(items)
         if err is not None:
             ctx.fail("call_raises", "%s(%s): %s" % (fname, dts, err), case, sig)
             continue
-        if snapshot(items) != before:
-            ctx.fail("C13_InputsUntouched", "%s(%s) modified one of its inputs" % (fname, dts), case, sig)
-            items = materialise(ctx, rec["masks"], n, dts, "%d_%d" % (os.getpid(), variant % 7))
+        if snapshot(items) != before or flags.changed():
+            ctx.fail("C13_InputsUntouched", "%s(%s) modified one of its inputs (%s)" % (fname, dts, flags.changed()), case, sig)
+            flags = argguard.Guard(masks=list(items))
+            items = materialise(ctx, rec["masks"], n, dts, "%d_%d" % (os.getpid(), variant % 7), lays)
             before = snapshot(items)
+            lst = tuple(items) if as_tuple else list(items)
         if not isinstance(res, np.ndarray) or list(res.shape) != list(n):
             ctx.fail("C13_AlgebraIsVoxelwiseLogic", "%s returned shape %s" % (fname, getattr(res, "shape", None)), case, sig)
             continue
@@ -267,7 +359,7 @@ def replay_algebra(ctx, rec, variant):
             alias_check(ctx, lambda: getattr(cryomask, fname)(lst), res, case, sig, fname)
             if container_changed(lst, items):
                 ctx.fail("C13_InputsUntouched", "%s(%s) changed the caller's list on a repeated call" % (fname, dts), case, sig)
-                lst[:] = items
+                lst = tuple(items) if as_tuple else list(items)
             continue
         if not bool(np.all((flat == 0) | (flat == 1))):
             ctx.fail("C13_AlgebraIsVoxelwiseLogic", "%s(%s) of binary masks is not binary" % (fname, dts), case, sig)
@@ -278,14 +370,27 @@ def replay_algebra(ctx, rec, variant):
             ctx.fail("C13_AlgebraIsVoxelwiseLogic", "%s(%s): %d voxel(s) differ from the voxel-wise %s" % (
                 fname, dts, len(bad), {"union": "OR", "inter": "AND", "sub": "AND-NOT", "diff": "XOR"}[key]), case, sig)
             continue
+        if variant % 13 == 0:           # the result written with output_name (every accepted extension) and read back
+            from cryocat import cryomap
+            outp = os.path.join(ctx.workdir, "alg_out_%d.%s" % (os.getpid(), ["mrc", "em", "rec"][variant % 3]))
+            r2, err = core.call_guarded(getattr(cryomask, fname), lst, output_name=outp)
+            back = cryomap.read(outp) if err is None and os.path.exists(outp) else None
+            if err is not None:
+                ctx.fail("call_raises", "%s with output_name: %s" % (fname, err), case, sig)
+            elif not _same(np.asarray(r2, dtype=float), np.asarray(res, dtype=float)) or back is None or not bool(
+                    np.array_equal(np.asarray(back, dtype=float), np.asarray(res, dtype=float))):
+                ctx.fail("C13_AlgebraIsVoxelwiseLogic", "%s: result returned / written with output_name differs" % fname, case, sig)
+            if os.path.exists(outp):
+                os.remove(outp)
         alias_check(ctx, lambda: getattr(cryomask, fname)(lst), res, case, sig, fname)
         if container_changed(lst, items):
             ctx.fail("C13_InputsUntouched", "%s(%s) changed the caller's list on a repeated call" % (fname, dts), case, sig)
-            lst[:] = items
+            lst = tuple(items) if as_tuple else list(items)
         if snapshot(items) != before:
             ctx.fail("C13_InputsUntouched", "%s(%s) modified one of its inputs on a repeated call" % (fname, dts), case, sig)
-            items = materialise(ctx, rec["masks"], n, dts, "%d_%d" % (os.getpid(), variant % 7))
+            items = materialise(ctx, rec["masks"], n, dts, "%d_%d" % (os.getpid(), variant % 7), lays)
             before = snapshot(items)
+            lst = tuple(items) if as_tuple else list(items)
     for it in items:
         if isinstance(it, str) and os.path.exists(it):
             os.remove(it)
@@ -354,7 +459,9 @@ def rand_algebra(rng):
             q["t"] = rng.randint(1, 4)
             q["r"] = max(rng.randint(1, max(n)), (q["t"] + 1) // 2)
         parts.append(q)
-    return {"shape": "algebra", "n": n, "parts": parts}
+    if rng.random() < 0.2:
+        parts[rng.randrange(len(parts))] = {"shape": "empty", "n": n}
+    return {"shape": "algebra", "n": n, "cont": rng.choice(["list", "list", "tuple"]), "parts": parts}
 
 
 def tlc_eval_requests(ctx, reqs, name):
@@ -364,7 +471,7 @@ def tlc_eval_requests(ctx, reqs, name):
     with open(path, "w") as fh:
         for q in reqs:
             fh.write(json.dumps(q) + "\n")
-    consts = {"N1": 6, "N2": 7, "N3": 8, "E1": 6, "E2": 8, "E3": 6, "CM": 1, "CR": 0, "Radii": [1], "Heights": [1],
+    consts = {"N1": 6, "N2": 7, "N3": 8, "E1": 6, "E2": 8, "E3": 6, "CM": 1, "CR": 0, "SweepMax": 1, "Radii": [1], "Heights": [1],
               "Thick": [1], "EllRadii": [1], "NameNums": [1]}
     res = ctx.tlc("MC_Masks", cfg_small(consts, "FileCases", True, CHEAP), name=name, env={"CASE_FILE": path},
                   workers=TLC_WORKERS)
@@ -499,6 +606,39 @@ def core_inside_request(rng, shape, parity=None):
     return q
 
 
+def lattice_requests(rng, radii):
+    """Hard-edged requests whose surface passes through lattice points off the axes; boxes just large enough (<= 48)."""
+    out = []
+
+    def box(rs, even=False):
+        n = [min(48, 2 * r + 2 + rng.randint(0, 2)) for r in rs]
+        return [x + (x % 2) if even else x for x in n] if even else n
+
+    for r in radii:
+        n = box([r, r, r])
+        out.append({"shape": "sphere", "n": n, "c": [x // 2 for x in n], "dc": False, "r": r})
+        h = rng.randint(1, 6)
+        n = box([r, r, h // 2 + 1])
+        out.append({"shape": "cyl", "n": n, "c": [x // 2 for x in n], "dc": False, "r": r, "h": h})
+        third = rng.randint(1, 6)
+        rr = [r, r, r]
+        rr[(r + third) % 3] = third                         # the odd radius takes every position over the sweep
+        n = [min(48, x + (x % 2)) for x in box(rr)]
+        out.append({"shape": "ell", "n": n, "c": [x // 2 for x in n], "dc": rng.random() < 0.5, "rr": rr})
+        if r >= 2:
+            t = 2
+            mid = [x - 1 if x == r else max(x, 2) for x in rr]          # shell radii mid +- 1: the outer pair is r
+            if min(mid) >= 2:
+                n = [min(48, x + (x % 2)) for x in box([x + 1 for x in mid])]
+                out.append({"shape": "eshell", "n": n, "c": [x // 2 for x in n], "dc": True, "rr": mid, "t": t})
+            n = box([r, r, r])
+            out.append({"shape": "sshell", "n": n, "c": [x // 2 for x in n], "dc": False, "r": r - 1, "t": 2})   # outer radius r
+    for q in out:
+        if q["dc"]:
+            q["c"] = [x // 2 for x in q["n"]]
+    return out
+
+
 def gen_l3_cases(ctx, rng, n_hard, n_soft, n_alg, cap, nbig, soft_rounds=1):
     cases = []
     for i in range(n_hard):
@@ -507,11 +647,10 @@ def gen_l3_cases(ctx, rng, n_hard, n_soft, n_alg, cap, nbig, soft_rounds=1):
         else:
             q = rand_request(rng, 6, 48, cap=cap)
         cases.append({"kind": "hard", "req": q, "variant": rng.randrange(64)})
-    # lattice points lying exactly on the sphere (Pythagorean quadruples: r = 13, 17, 15, 23, 25 ...), off the axes
-    for r in ([13, 17] if soft_rounds == 1 else [13, 15, 17, 23, 25, 9, 21]):
-        n = [rng.randint(2 * r + 1, 2 * r + 6) if 2 * r + 6 <= 48 else 48 for _ in range(3)]
-        cases.append({"kind": "hard", "req": {"shape": "sphere", "n": n, "c": [x // 2 for x in n], "dc": False, "r": r},
-                      "variant": rng.randrange(64)})
+    # lattice points lying exactly on the surface (Pythagorean radii 5, 10, 13, 15, 17, 20 ...), for EVERY constructor:
+    # spheres, cylinders, ellipsoids with a pair of equal radii (every position of the third), both shell kinds
+    for q in lattice_requests(rng, [5, 10, 13, 15, 17, 20] if soft_rounds == 1 else list(range(1, 24))):
+        cases.append({"kind": "hard", "req": q, "variant": rng.randrange(64)})
     # soft edges, blurred outwards: every shape that has the flag x every width (cylinders with odd and even heights),
     # core inside the box
     for rnd in range(soft_rounds):
@@ -582,7 +721,8 @@ def run(ctx):
                 "sigma in {0.5, 1, 1.5, 2, 3} blurred outwards in every run plus random requests. distinct = distinct (request, argument-form variant)")
     ctx.assumptions += [
         "projection alpha (array -> set of linear indices of ones / per-column runs / min,max x1e6) is trusted",
-        "ellipsoid voxels exactly on the surface with more than one non-zero offset are not compared (float tie)",
+        "ellipsoid voxels exactly on the surface with more than one non-zero offset are compared for radii <= 24 (the "
+        "float expression is exact there, verified exhaustively on the pinned tree) and skipped beyond",
         "difference is compared with XOR for two masks only (n-ary XOR is not defined by the statement)",
         "spherical shells with 2r >= t, ellipsoid shells with even thickness and inner radii >= 1; ellipsoids in even boxes",
         "soft-edge claims are threshold checks: values x1e6 in [0, 1e6], core >= 1 - 1e-3 when blurred outwards",
@@ -597,7 +737,8 @@ def run(ctx):
     eb = rng.choice([(a, b, c) for a in (6, 8) for b in (6, 8) for c in (6, 8)])
     cm = ctx.pick(11, 1)
     consts = {"N1": nb[0], "N2": nb[1], "N3": nb[2], "E1": eb[0], "E2": eb[1], "E3": eb[2], "CM": cm, "CR": rng.randrange(cm),
-              "Radii": [1, 2, 3, 4, 6, 15], "Heights": [1, 2, 3, 4, 7, 20], "Thick": [1, 2, 3, 4],
+              "SweepMax": max(nb) + 6,
+              "Radii": [1, 2, 3, 5, 6, 15], "Heights": [1, 2, 3, 4, 7, 20], "Thick": [1, 2, 3, 4],
               "EllRadii": [1, 2, 3, 5, 9], "NameNums": ctx.pick([1, 2, 3], [1, 2, 3, 5])}
     ctx.extra["small_scope"] = {k: consts[k] for k in consts}
     if want("laws"):
@@ -620,6 +761,12 @@ def run(ctx):
         nreq = ctx.pick(120, 1500)
         reqs = [rand_request(rng, 6, 20, cap=ctx.pick(3000, 5000)) for _ in range(nreq)]
         reqs += [rand_algebra(rng) for _ in range(ctx.pick(60, 600))]
+        # the name generator on radii whose surface passes through lattice points off the axes
+        for kind, nums in ([("ellipsoid", [13, 13, rng.randint(1, 6)]), ("ellipsoid", [rng.randint(1, 6), 5, 5]),
+                            ("e_shell", [12, 4, 12, 2]), ("sphere", [13]), ("cylinder", [13, 3]), ("s_shell", [12, 2])]
+                           + ([] if ctx.quick else [("ellipsoid", [17, 3, 17]), ("ellipsoid", [10, 10, 10]), ("sphere", [17]),
+                                                    ("e_shell", [14, 14, 5, 2]), ("cylinder", [17, 2]), ("s_shell", [14, 2])])):
+            reqs.append({"shape": "name", "kind": kind, "nums": nums, "size": 0, "exp": 4, "pad": 0})
         uniq = {}
         for q in reqs:
             uniq.setdefault(core.stable_hash(q), q)
